@@ -1,5 +1,6 @@
 (* C18 — Adaptive force-bias step length stays in range and shrinks with uncertainty. *)
-From QV Require Import Model.ForceBias Proofs.AdaptiveProofs.
+From QV Require Import Model.ForceBias Proofs.AdaptiveProofs Proofs.VariationProofs.
+From Coq Require Import List.
 From Coq Require Import Lra.
 
 (* both shipped update functions: value 1 at zero variance, 1/2 at the reference variance, within [0,1],
@@ -30,3 +31,20 @@ Theorem C18_limit : forall r f, is_update r f -> forall lo hi, lo <= hi -> foral
   exists v0, forall v, v0 <= v -> 0 <= v -> delta_of lo hi (f v) - lo <= eps.
 Proof. exact delta_limit. Qed.
 Print Assumptions C18_limit.
+
+(* the argument of the update function: the variation coefficient std / mean|F| of the committee (population std about the mean).
+   It is never negative, vanishes for a unanimous committee, and does not depend on the magnitude of the forces: residual forces of
+   1e-9 eV/A with a 30 % spread give the same delta as forces of 1 eV/A with a 30 % spread.  For the energies scheme (std / N) a
+   common offset of the committee energies does not matter. *)
+Theorem C18_variation_nonneg : forall l, lmean (map Rabs l) <> 0 -> 0 <= variation l.
+Proof. exact variation_nonneg. Qed.
+Print Assumptions C18_variation_nonneg.
+Theorem C18_variation_unanimous : forall a n, variation (repeat a (S n)) = 0.
+Proof. exact variation_zero_when_unanimous. Qed.
+Print Assumptions C18_variation_unanimous.
+Theorem C18_variation_scale_free : forall c l, 0 < c -> lmean (map Rabs l) <> 0 -> variation (map (fun x => c * x) l) = variation l.
+Proof. exact variation_scale_free. Qed.
+Print Assumptions C18_variation_scale_free.
+Theorem C18_energy_spread_shift_free : forall c l, l <> nil -> lstd (map (fun x => x + c) l) = lstd l.
+Proof. exact lstd_shift_free. Qed.
+Print Assumptions C18_energy_spread_shift_free.
